@@ -90,6 +90,13 @@ pub fn gen(rng: &mut Rng, size: usize) -> Value {
                     if b < 0x80 {
                         let at = rng.below(s.len() as u64 + 1) as usize;
                         s.insert(at, byte_to_sym(b));
+                    } else {
+                        // a character >= U+0080 (its UTF-8 bytes), among them code points whose LOW byte is an alphabet byte
+                        let low = *rng.pick(&[b'A', b'g', b'+', b'/', b'0', b'z']);
+                        let ch = if rng.chance(1, 2) { char::from_u32(0x100 * (1 + rng.below(200) as u32) + low as u32).unwrap_or('Ł') } else { *rng.pick(&['é', 'ÿ', '€', '𝒳']) };
+                        let at = rng.below(s.len() as u64 + 1) as usize;
+                        let mut buf = [0u8; 4];
+                        for (k, byte) in ch.encode_utf8(&mut buf).bytes().enumerate() { s.insert(at + k, byte_to_sym(byte)); }
                     }
                 }
                 _ => {}
